@@ -418,7 +418,7 @@ def run(ctx, res):
     check_mask_cases(ctx, res, masks)
     check_bridge_cases(ctx, res, gen_bridge(ctx))
     # the bounded scope of the property's quantifier is covered completely by the thorough budget
-    res.exhaustive = bool(ctx.thorough or ctx.deep)
+    res.exhaustive = False  # bounded-exhaustive scopes are described in RULE; the property (unbounded masks) is not enumerable
 
 
 def replay(ctx, data):
